@@ -29,6 +29,8 @@ func checkC02(c *Check) {
 	ruleBuffersRefetched(c, p, "R02.10", "Writer", "Reader", "CompressingReader")
 	ruleContentHashDiscipline(c, p, "R02.11")
 	c.RuleDoc["R02.10"] = "block-sized buffers agree with the frame's block size: re-fetched at frame start"
+	ruleSizeGuardExact(c, p, "R02.12")
+	c.RuleDoc["R02.12"] = "the oversize exit of the block reader is strict: blocks of exactly the maximum size are accepted"
 	c.RuleDoc["R02.11"] = "content hash fed in stream order only, reset at frame start only"
 }
 
@@ -55,6 +57,8 @@ func checkC08(c *Check) {
 	ruleOrderingGoroutineLatch(c, p, "R08.10")
 	ruleContentHashDiscipline(c, p, "R08.11")
 	ruleContentHashFeed(c, p, "R08.12")
+	c.RuleDoc["R08.13"] = "a caller's buffer is compressed in place only in sequential mode (= R02.7): the pipeline goroutines never read a slice the caller may reuse after Write returns"
+	ruleDirectWrite(c, p, "R08.13")
 	c.RuleDoc["R08.11"] = "the shared running hash is touched only by the ordered path (no per-block worker feeds or resets it)"
 	c.RuleDoc["R08.12"] = "the collector does not use a block after handing it to the consumer"
 }
@@ -81,6 +85,12 @@ func checkC09(c *Check) {
 	ruleSizeTables(c, p, "R09.9")
 	ruleResetRearms(c, p, "R09.10")
 	ruleContentHashDiscipline(c, p, "R09.11")
+	ruleContentSizeWriters(c, p, "R09.12")
+	ruleNoEmptyBlock(c, p, "R09.14", "")
+	c.RuleDoc["R09.14"] = "no empty data block is emitted: prefix slices handed to the block compressor have a positive length"
+	ruleNestedRearm(c, p, "R09.13")
+	c.RuleDoc["R09.13"] = "a struct-valued field re-initialised through its own method is re-initialised completely (the overflow writer of the CompressingReader: the byte count handed back to the caller restarts at zero)"
+	c.RuleDoc["R09.12"] = "the announced content size is written only by SizeOption (writer) and by the header parser (reader)"
 	c.RuleDoc["R09.10"] = "Reset re-arms the header gate: every frame starts with its magic and descriptor"
 	c.RuleDoc["R09.11"] = "content hash fed in stream order only, reset at frame start only"
 }
